@@ -295,8 +295,8 @@ impl Property for C04 {
     }
     fn budget(&self, tier: Tier) -> u64 {
         match tier {
-            Tier::Quick => 300_000,
-            Tier::Thorough => 3_000_000,
+            Tier::Quick => 1_500_000,
+            Tier::Thorough => 12_000_000,
         }
     }
     fn generate(&self, seed: u64, run: u64, tier: Tier, avoid: &BTreeSet<String>) -> MacCase {
